@@ -182,7 +182,7 @@ def run(ctx):
             os.remove(q)
     # ---- (b) re-serialised variants through the model's independent serialiser --------
     for kind, m, doc0 in parsed_for_variants:
-        for variant in ("same", "no_pseudo", "permuted", "no_tail", "tail"):
+        for variant in ("same", "no_pseudo", "permuted", "no_tail", "tail", "no_refs_tail"):
             if kind == "csi":
                 _, ms, depth, aux, bins, counts, nnc = m
                 pseudo = ((1 << (depth + 1) * 3) - 1) // 7 + 1
@@ -200,11 +200,15 @@ def run(ctx):
                 tail = []
             elif variant == "tail":
                 tail = [rnd.randint(0, 2**40)]
+            elif variant == "no_refs_tail":
+                # an index without any reference sequence (what htslib writes for unplaced records only)
+                contigs = []
+                tail = [rnd.choice([1, 7, 300, rnd.randint(0, 2**40)])]
             if kind == "csi":
                 arg = [ms, depth, aux, contigs, tail]
                 out = ctx.model.call(902, arg)
             else:
-                arg = [hdr8[1:7], names, [[bs, li] for bs, li in zip(contigs, linear)], tail]
+                arg = [hdr8[1:7], names if contigs else [], [[bs, li] for bs, li in zip(contigs, linear)], tail]
                 out = ctx.model.call(903, arg)
             if is_err(out):
                 ctx.note(f"model serialiser refused {variant}")
